@@ -1,7 +1,7 @@
 (** Correspondence check for C09, evaluated by [vm_compute] on the cases the Go
     harness wrote (what the real proxies delivered next to the scripts that produced it). *)
 From Coq Require Import List NArith Bool.
-From Fabio Require Import Lib.Outcome Lib.Bytes Lib.Verdict Model.ClientHello Model.BufioR Model.Tunnel.
+From Fabio Require Import Lib.Outcome Lib.Bytes Lib.Verdict Model.ClientHello Model.BufioR Model.Tunnel Model.WsHijack.
 Import ListNotations.
 Local Open Scope N_scope.
 Local Open Scope outcome_scope.
@@ -38,7 +38,23 @@ Inductive case :=
         (conn : bool) (o_head : str) (o_n : N) (o_prefix o_clean : bool)
 (* the bufio.Reader model against the real bufio.Reader: operations and (data, error kind,
    Buffered() afterwards) of each *)
-| CBufio (cap : N) (stream : str) (segs : list N) (ops : list bop) (res : list (str * N * N)).
+| CBufio (cap : N) (stream : str) (segs : list N) (ops : list bop) (res : list (str * N * N))
+(* websocket, the client does not wait for the 101: [req] is the upgrade request as the client
+   sends it (cut after [rsplit] bytes into two segments if 0 < rsplit < |req|); the first
+   [nearly] segments of [stream] leave before the client has seen the 101, the first of them in
+   the same segment as (the rest of) the request; the other fields as in CTunnel.  Whether the
+   http server's one-byte background read got to run before the Hijack cannot be observed: the
+   model is evaluated for both. *)
+| CWsEarly (req : str) (rsplit : N) (stream : str) (segs : list N) (nearly : N) (fin : N) (cw_in cwait : bool)
+           (ce : cend) (ut : utrig) (reply : str) (rseg1 whead : N) (ue : uend)
+           (conn : bool) (o_up o_cl : str) (o_ended o_eof : bool).
+
+Definition agrees_obs (conn : bool) (o_up o_cl : str) (o_ended o_eof : bool) (e : expectation) : bool :=
+  Bool.eqb conn (e_conn e)
+  && within o_up (e_up e) (e_up_lo e) (nlen' (e_up e))
+  && within o_cl (e_cl e) (e_cl_lo e) (e_cl_hi e)
+  && match e_ends e with Some b => Bool.eqb o_ended b | None => true end
+  && match e_cl_eof e with Some b => Bool.eqb o_eof b | None => true end.
 
 Fixpoint run_ops (b : breader) (ops : list bop) : outcome (list (str * N * N)) :=
   match ops with
@@ -104,5 +120,17 @@ Definition check_case (c : case) : N :=
       match run_ops b ops with
       | Ok m => verdict (list_eqb res_eqb m res) true None true
       | _ => verdict false true None true
+      end
+  | CWsEarly req rsplit stream segs nearly fin cw_in cwait ce ut reply rseg1 whead ue conn o_up o_cl o_ended o_eof =>
+      let ss := split_segs stream segs in
+      (* specification: the transparent tunnel on the client's WHOLE stream, early bytes included *)
+      let spec := spec_b KWs false [] stream cwait ce ut reply ue o_up o_cl in
+      let region := if region_upstream_half_close stream cw_in ut ue then Some 1 else None in
+      let model bg := scenario_expect_ws_early req rsplit ss nearly bg fin cw_in cwait ce ut reply rseg1 whead ue in
+      match model false, model true with
+      | Ok e0, Ok e1 =>
+          verdict (agrees_obs conn o_up o_cl o_ended o_eof e0 || agrees_obs conn o_up o_cl o_ended o_eof e1)
+                  spec region (e_conn e0 && (0 <? nlen' (e_up e0)))
+      | _, _ => verdict false spec region true
       end
   end.
